@@ -191,7 +191,7 @@ BASE = {
 }
 PRELUDE = ['def line-matcher LM = contents matches x', 'def path HP = -rel-home x', 'def string S = s',
            'def program PGM = % echo pgm-arg',
-           'def path AP = /vsym-no-such-dir/sub',
+           'def path AP = /vsym-no-such-dir/sub', 'def path RP = -rel-result r', 'def path RP2 = -rel RP deeper',
            # strings built from several symbols, a path symbol first / second / at depth two
            'def string IND1 = "@[HP]@-@[S]@"', 'def string IND2 = "@[S]@-@[HP]@"', 'def string IND3 = "@[S]@@[S]@@[IND2]@"']
 PHASES = ('setup', 'before-assert', 'assert', 'cleanup')
@@ -220,6 +220,19 @@ DEFECTS = (
     ('wrong-symbol-type-matcher', 'def line-matcher LM2 = S', ('VALIDATION_ERROR',), None),
     ('illegal-relativity-via-symbol', "file @[HP]@/y.txt = 'c'", ('VALIDATION_ERROR',), None),
     ('illegal-relativity-option', "file -rel-home y.txt = 'c'", ('SYNTAX_ERROR',), None),
+    # every kind of path symbol a file-creating argument must reject, in every reference form (round 7: C03-r7m1 accepted
+    # absolute path symbols everywhere; C12-r7m1 accepted the result directory as DESTINATION of `copy`)
+    ('illegal-relativity-absolute-path-symbol-as-rel', "file -rel AP out.txt = 'x'", ('VALIDATION_ERROR',), None),
+    ('illegal-relativity-absolute-path-symbol-as-prefix', "file @[AP]@/out.txt = 'x'", ('VALIDATION_ERROR',), None),
+    ('illegal-relativity-absolute-path-symbol-dir', 'dir -rel AP d', ('VALIDATION_ERROR',), None),
+    ('illegal-relativity-absolute-path-symbol-copy-destination', 'copy -rel-home existing.txt -rel AP dst.txt', ('VALIDATION_ERROR',), None),
+    ('illegal-relativity-home-path-symbol-as-rel', "file -rel HP out.txt = 'x'", ('VALIDATION_ERROR',), None),
+    ('illegal-relativity-home-path-symbol-copy-destination', 'copy -rel-home existing.txt @[HP]@/dst.txt', ('VALIDATION_ERROR',), None),
+    ('illegal-relativity-result-path-symbol-file', "file -rel RP out.txt = 'x'", ('VALIDATION_ERROR',), None),
+    ('illegal-relativity-result-path-symbol-depth-2-dir', 'dir @[RP2]@/d', ('VALIDATION_ERROR',), None),
+    ('illegal-relativity-result-path-symbol-copy-destination', 'copy -rel-home existing.txt -rel RP dst.txt', ('VALIDATION_ERROR',), None),
+    ('illegal-relativity-result-option-copy-destination', 'copy -rel-home existing.txt -rel-result dst.txt', ('SYNTAX_ERROR',), None),
+    ('illegal-relativity-result-option-file', "file -rel-result out.txt = 'x'", ('SYNTAX_ERROR',), None),
     ('missing-home-file-copy', 'copy -rel-home no-such-file.txt', ('VALIDATION_ERROR',), None),
     ('missing-home-file-contents-of', 'file c.txt = -contents-of -rel-home missing.txt', ('VALIDATION_ERROR',), None),
     ('missing-home-program', 'run -rel-home missing-prog arg', ('VALIDATION_ERROR',), None),
